@@ -120,23 +120,29 @@ def parse(s):
     return v
 
 
-def parse_dump(path):
-    """Parse a `tlc -dump` file: list of dict var -> value."""
-    states = []
-    cur = None
-    buf = []
+def _parse_blocks(blocks):
+    return [_finish(b.split("\n")) for b in blocks]
+
+
+def parse_dump(path, procs=None):
+    """Parse a `tlc -dump` file: list of dict var -> value (parallel for big dumps)."""
     with open(path) as fh:
-        for line in fh:
-            if line.startswith("State "):
-                if cur is not None:
-                    states.append(_finish(buf))
-                cur = True
-                buf = []
-            elif cur is not None:
-                buf.append(line.rstrip("\n"))
-    if cur is not None:
-        states.append(_finish(buf))
-    return states
+        text = fh.read()
+    blocks = re.split(r"(?m)^State \d+:.*$", text)[1:]
+    if len(blocks) < 4000:
+        return _parse_blocks(blocks)
+    import multiprocessing as mp
+    import os
+    n = procs or (os.cpu_count() or 4)
+    size = (len(blocks) + n * 4 - 1) // (n * 4)
+    chunks = [blocks[i:i + size] for i in range(0, len(blocks), size)]
+    ctx = mp.get_context("fork")
+    with ctx.Pool(n) as pool:
+        parts = pool.map(_parse_blocks, chunks)
+    out = []
+    for p in parts:
+        out.extend(p)
+    return out
 
 
 def _finish(lines):
